@@ -136,6 +136,12 @@ pub fn gen(rng: &mut Rng, n: usize, out: &mut Vec<String>) {
             if out.len() >= n {
                 break;
             }
+            if rng.chance(1, 12) {
+                if let Some(l) = endfl_case(&s, rng, stranger) {
+                    out.push(l);
+                }
+                continue;
+            }
             if rng.chance(1, 7) {
                 if let Some(l) = liq_case(&s, rng, stranger) {
                     out.push(l);
@@ -497,6 +503,43 @@ fn liq_case(s: &Scen, rng: &mut Rng, stranger: Pubkey) -> Option<String> {
                 iv0 - w.token_amount(&hl.liquidity_vault)
             ))
         }
+        Err(ExecErr::Custom(code)) if code >= 6000 => Some(format!("{} => err {}", head, code)),
+        Err(ExecErr::Panic) => Some(format!("{} => panic", head)),
+        Err(_) => None,
+    }
+}
+
+/// `wd.endfl`: the REAL lending_account_end_flashloan through dispatch: the account flagged in-flash-loan (or not), healthy or with
+/// its collateral shrunk, signed by its authority or by someone else, flagged disabled / frozen / in receivership or not.
+///   amount field = stack height (1: top level); `=> ok <account flags afterwards>`
+fn endfl_case(s: &Scen, rng: &mut Rng, stranger: Pubkey) -> Option<String> {
+    let u = rng.below(s.users.len() as u64) as usize;
+    let mut w = s.w.clone();
+    let acct_key = s.users[u].acct;
+    let mut a = w.marginfi_account(&acct_key);
+    if rng.chance(5, 6) { a.account_flags |= ACCOUNT_IN_FLASHLOAN; }
+    if rng.chance(1, 6) { a.account_flags |= *rng.pick(&[ACCOUNT_DISABLED, ACCOUNT_IN_RECEIVERSHIP, ACCOUNT_FROZEN]); }
+    // what happened inside the bracket: collateral gone, or debt grown
+    if rng.chance(1, 2) {
+        let pm = *rng.pick(&[0i128, 100, 500, 900, 990]);
+        for bal in a.lending_account.balances.iter_mut().filter(|x| x.is_active()) {
+            let sh = bits(bal.asset_shares);
+            if sh > 0 { bal.asset_shares = I80F48::from_bits(sh / 1000 * pm).into(); }
+        }
+    }
+    w.set_marginfi_account(&acct_key, &a);
+    if rng.chance(1, 6) { w.advance(*rng.pick(&[1i64, 3600, 86400])); }
+    let signer = if rng.chance(1, 6) { *rng.pick(&[stranger, s.admin]) } else { s.users[u].wallet };
+    let ixn = ix::end_flashloan(acct_key, signer, w.remaining_in_slot_order(&acct_key));
+    // (no bank is operated on: the context carries the first bank with a key that no slot names)
+    let h = s.banks[0];
+    let (head, _keys) = context_line(s, &w, "wd.endfl", &acct_key, &h, signer, h.liquidity_vault, 1, false);
+    // blank the bank key of the context (field 16 + 112 + 1 + ... is the 128th token: op now g8 a4 slots112 signer bkey)
+    let mut toks: Vec<String> = head.split(' ').map(|x| x.to_string()).collect();
+    toks[127] = "0".to_string();
+    let head = toks.join(" ");
+    match w.exec(&ixn) {
+        Ok(()) => Some(format!("{} => ok {}", head, w.marginfi_account(&acct_key).account_flags)),
         Err(ExecErr::Custom(code)) if code >= 6000 => Some(format!("{} => err {}", head, code)),
         Err(ExecErr::Panic) => Some(format!("{} => panic", head)),
         Err(_) => None,
